@@ -23,6 +23,8 @@ DA_SUPPRESSIONS = {
 DA_LOOPVAR_SUPPRESSIONS = [
     ('parso/python/parser.py', r'reversed\(list\(enumerate\(\w+\)\)\)', 0,
      'loop over the parser stack, which always holds the file-level entry (PAR-9)'),
+    ('parso/python/parser.py', r'range\(len\(\w+\) - 1, -1, -1\)', 0,
+     'loop over the indexes of the parser stack, which always holds the file-level entry (PAR-9)'),
 ]
 
 
@@ -37,6 +39,43 @@ def _loopvar_suppressed(rel, f, var):
                 if pos < len(tg) and isinstance(tg[pos], ast.Name) and tg[pos].id == var:
                     return why
     return None
+
+
+def _only_index_error(ctx, f, var, findings):
+    """Every reported read of ``var`` sits in an `except KeyError` handler of a try whose body *starts* with the single
+    assignment `var = <list>[<int constant>]`: evaluating that can raise IndexError but not KeyError, so the handler is
+    only entered after the assignment."""
+    from ..model import Cls
+    for x in findings:
+        node = x.node.stmt if x.node.stmt is not None else x.node.ast
+        h = node
+        while h is not None and not isinstance(h, ast.ExceptHandler):
+            h = getattr(h, '_parent', None)
+        if h is None or h.type is None or norm(h.type) != 'KeyError':
+            return None
+        t = getattr(h, '_parent', None)
+        if not isinstance(t, ast.Try) or not t.body:
+            return None
+        first = t.body[0]
+        if not (isinstance(first, ast.Assign) and len(first.targets) == 1 and isinstance(first.targets[0], ast.Name)
+                and first.targets[0].id == var and isinstance(first.value, ast.Subscript)
+                and isinstance(first.value.slice, (ast.Constant, ast.UnaryOp))):
+            return None
+        others = [a for a in walk_own(f.node) if isinstance(a, ast.Assign) and a is not first
+                  and any(isinstance(tg, ast.Name) and tg.id == var for tg in a.targets)]
+        # the receiver is a list (subclass)
+        recv = first.value.value
+        types = ctx.cg.type_of(f, recv) or set()
+        if isinstance(recv, ast.Name) and not types:
+            from ..model import reaching_values
+            for v in reaching_values(f.node, recv):
+                types |= ctx.cg.type_of(f, v) or set()
+        is_list = bool(types) and all(isinstance(c, Cls) and any(b == 'list' or (isinstance(b, Cls) and b.name == 'list')
+                                                                  for b in c.mro) for c in types)
+        if not is_list:
+            return None
+    return 'read in an `except KeyError` handler; the only way to get there with the variable unassigned is the list ' \
+           'indexing that assigns it, which raises IndexError, not KeyError'
 
 
 class NonEmpty:
@@ -110,6 +149,10 @@ def da_rule(ctx, rep, modules, rule='DA'):
                 why_loop = _loopvar_suppressed(rel, f, var)
                 if why_loop:
                     rep.skip(rule, rel, f.qual, 'read of %s' % var, why_loop)
+                    continue
+                why_idx = _only_index_error(ctx, f, var, xs)
+                if why_idx:
+                    rep.skip(rule, rel, f.qual, 'read of %s' % var, why_idx)
                     continue
                 bad = True
                 x = xs[0]
